@@ -107,7 +107,7 @@ def generate(seed: int, tier: str, phase: str) -> Dict[str, Any]:
         if k == "build":
             ops.append(_gen_build(r))
         elif k == "sched_step":
-            ops.append({"op": k, "factor": r.choice([0.5, 0.9, 2.0])})
+            ops.append({"op": k, "factor": r.choice([0.5, 0.9, 2.0]), "sched": r.choice(["lambda", "exponential", "step"])})
         elif k == "sched_mutate":
             ops.append({"op": k, "i": r.randrange(64), "how": r.choice(["fill", "mul"]),
                         "v": r.choice([0.5, 2.0, 0.125])})
@@ -559,7 +559,15 @@ def execute(plan: Dict[str, Any]) -> Dict[str, Any]:
                 if w.sched is None:
                     fct = op["factor"]
                     w.sched_factor = fct
-                    w.sched = torch.optim.lr_scheduler.LambdaLR(w.opt, lambda e, fct=fct: fct ** e)
+                    kind_ = op.get("sched", "lambda")
+                    if kind_ == "exponential":  # chainable form: lr <- lr * gamma each step
+                        w.sched = torch.optim.lr_scheduler.ExponentialLR(w.opt, gamma=fct)
+                    elif kind_ == "step":
+                        w.sched = torch.optim.lr_scheduler.StepLR(w.opt, step_size=1, gamma=fct)
+                    else:
+                        w.sched = torch.optim.lr_scheduler.LambdaLR(w.opt, lambda e, fct=fct: fct ** e)
+                    w.sched_kind = kind_
+                    probe("scheduler:" + kind_)
                     for m, rg in zip(w.model, w.result):
                         m["extra"] = {kk: vv for kk, vv in rg.items() if kk not in ("params", "lr", "weight_decay")}
                         m["base"] = float(rg["lr"])
@@ -572,7 +580,10 @@ def execute(plan: Dict[str, Any]) -> Dict[str, Any]:
                     warnings.simplefilter("ignore")
                     w.sched.step()
                 for m in w.model:
-                    m["lr"] = m["base"] * (w.sched_factor ** w.epoch)
+                    if getattr(w, "sched_kind", "lambda") == "lambda":
+                        m["lr"] = m["base"] * (w.sched_factor ** w.epoch)  # closed form from the base lr
+                    else:
+                        m["lr"] = m["lr"] * w.sched_factor  # chainable form: from the current lr
                     m["pristine"] = False
                 _refresh_unscaled(w)
                 _check_result_stable(w, where)
